@@ -118,3 +118,38 @@ func VerifH_C20_base64id_concurrent() {
 	verif.PreemptBudget(0)
 	verif.Assert(len(a) == 24 && len(b) == 24 && a != b, "concurrent ids differ")
 }
+
+// VerifH_C20_yeast_across_milliseconds: a call is overtaken at the generator's lock by a
+// call made in a later millisecond (the harness holds the lock to park the first caller,
+// lets the clock advance, releases the lock and calls at once): all ids ever returned are
+// still different.  Natively the overtaking depends on the runtime's lock hand-off, so the
+// scenario is repeated until it happens (bounded).
+func VerifH_C20_yeast_across_milliseconds() {
+	rounds := 1
+	if !verif.Symbolic() {
+		rounds = 40
+	}
+	for round := 0; round < rounds; round++ {
+		y := NewYeast()
+		verif.ClockAlign()
+		id0 := y.Yeast() // an id issued in millisecond T1
+		var idA string
+		done := make(chan struct{})
+		y.mu.Lock()
+		go func() {
+			idA = y.Yeast() // starts in T1, waits for the lock
+			close(done)
+		}()
+		verif.Settle()
+		verif.ClockAdvance(2) // T2 > T1
+		y.mu.Unlock()
+		idB := y.Yeast() // a call in T2, possibly ahead of the waiting one
+		<-done
+		idC := y.Yeast()
+		ok := id0 != idA && id0 != idB && id0 != idC && idA != idB && idA != idC && idB != idC
+		verif.Assert(ok, "no id is ever returned twice, also when a call is overtaken across a millisecond boundary")
+		if !ok {
+			return
+		}
+	}
+}
